@@ -978,8 +978,20 @@ func c19LiveRun(lc *liveCase, mode string, baseA, baseB [][]liveObs) ([][]liveOb
 func genLive(rt *rapid.T) *liveCase {
 	lc := &liveCase{Flips: rapid.IntRange(1, 60).Draw(rt, "flips")}
 	n := rapid.SampledFrom([]int{2, 3, 4, 8}).Draw(rt, "live-threads")
+	// one case in two is FOCUSED: every goroutine repeats one and the same operation kind, many times, while the
+	// schedule keeps changing and the changes stop while executions still run - so that the last change almost surely
+	// arrives while that function executes (a setter that gives up when it cannot get the lock at once drops it), and
+	// the probe after quiescence looks at that function
+	focus := ""
+	if rapid.IntRange(0, 1).Draw(rt, "live-focused") == 0 {
+		focus = rapid.SampledFrom(liveProbes).Draw(rt, "live-focus-kind")
+		lc.Flips = 30 + rapid.IntRange(0, 30).Draw(rt, "focus-flips")
+	}
 	for i := 0; i < n; i++ {
 		k := rapid.IntRange(1, 40).Draw(rt, "live-nops")
+		if focus != "" {
+			k = 40
+		}
 		ops := make([]liveOp, k)
 		// one goroutine in three does the same thing over and over: that function is then busy most of the time, so a
 		// reconfiguration is likely to arrive while it executes
@@ -993,10 +1005,13 @@ func genLive(rt *rapid.T) *liveCase {
 			if same != "" {
 				ops[j].Kind = same
 			}
+			if focus != "" {
+				ops[j].Kind = focus
+			}
 		}
 		lc.Threads = append(lc.Threads, ops)
 	}
-	lc.StopEarly = rapid.Bool().Draw(rt, "live-stop-early")
+	lc.StopEarly = rapid.Bool().Draw(rt, "live-stop-early") || focus != ""
 	ne := rapid.IntRange(0, 10).Draw(rt, "live-nepochs")
 	for i := 0; i < ne; i++ {
 		lc.Epochs = append(lc.Epochs, rapid.SampledFrom([]uint32{0, 1, 2, 0, 5}).Draw(rt, "live-epoch"))
